@@ -25,7 +25,8 @@ RULE = (
 RULE += " added since: attribute values that are falsy (None, 0, '', False), every declaration mask per level, nested named blocks, two bases alternating on one lookup through a dynamic <%inherit>, keyword-only <%page args>. every def and named block of every chain template rendered alone through get_def(), judged with that template as the most-derived one. dynamic inherit targets computed from a module attribute through context['self'].attr."
 ASSUMPTIONS = ["reference resolution in checks/c06.py (from the statement)"]
 MIN_NONTRIVIAL = 200
-REQUIRED_COUNTERS = ["chains_rendered", "dispatch_calls_model", "blocks_rendered_model", "negative_cases", "page_args_received", "missing_member_errors_matched", "get_def_renders"]
+RULE += " render() arguments reaching the <%page> signature of the base-most body under six signatures of the rendered template (none, named, **opts, keyword-only)."
+REQUIRED_COUNTERS = ["chains_rendered", "dispatch_calls_model", "blocks_rendered_model", "negative_cases", "page_args_received", "missing_member_errors_matched", "get_def_renders", "render_args_cases"]
 
 _st = {}
 DEFS = ["d0", "d1", "d2"]
@@ -505,6 +506,42 @@ def run_negative(res):
             res.violate("valid-blocks-rejected", "template %r gave %r, expected %r" % (text, out, exp))
 
 
+# ------------------------------------------------------------------ (d) render()'s own arguments and the body that runs first
+LEAF_PAGES = ["", '<%page args="x=1"/>', '<%page args="x=1, **opts"/>', '<%page args="**opts"/>', '<%page args="lang=\'leaf-default\'"/>', '<%page args="*, x=1, **opts"/>']
+
+
+def run_render_args(res):
+    """the body that render() runs is the base-most one, and it is that body's <%page> signature which receives the
+    arguments given to render() - whatever signature the rendered (most-derived) template declares for its own body"""
+    L = _st["TemplateLookup"]
+    for depth in (1, 2):
+        for dynamic in (False, True):
+            for lp in LEAF_PAGES:
+                lk = L()
+                lk.put_string("/base.html", '<%page args="lang=\'en\', width=80"/>B[${lang}|${width}|${sorted(pageargs)}](${next.body()})')
+                inh = '<%inherit file="${\'/\' + context[\'parentname\']}"/>' if dynamic else '<%%inherit file="/%s"/>'
+                if depth == 2:
+                    lk.put_string("/mid.html", (inh if dynamic else inh % "base.html") + "M(${next.body()})")
+                parent = "mid.html" if depth == 2 else "base.html"
+                lk.put_string("/leaf.html", lp + ('<%inherit file="/' + parent + '"/>') + "LEAF")
+                for data in ({}, {"lang": "fr"}, {"lang": "de", "width": 40}, {"width": 40, "extra": 1}, {"x": 5, "lang": "fr", "extra": 2}):
+                    res.evaluations += 1
+                    res.count("render_args_cases")
+                    kw = dict(data)
+                    if dynamic:
+                        kw["parentname"] = "base.html"
+                    extra = sorted(k for k in kw if k not in ("lang", "width"))
+                    exp = "B[%s|%s|%r](%sLEAF%s)" % (kw.get("lang", "en"), kw.get("width", 80), extra, "M(" if depth == 2 else "", ")" if depth == 2 else "")
+                    what = "leaf %r inheriting %s (depth %d), render(%s)" % (lp, "through an expression" if dynamic and depth == 2 else "statically", depth, ", ".join("%s=%r" % i for i in sorted(kw.items())))
+                    try:
+                        got = lk.get_template("/leaf.html").render_unicode(**kw)
+                    except Exception as e:
+                        got = "%s: %s" % (type(e).__name__, e)
+                    if got != exp:
+                        res.violate("render-arguments-not-received", "%s rendered %r, expected %r" % (what, got, exp), witness="render() arguments and the base-most body's <%page> signature")
+                res.nontrivial("render-args", depth, dynamic, lp)
+
+
 def gen_cases(tier, seed):
     yield {"kind": "negative"}
     batch = []
@@ -529,6 +566,7 @@ def run_case(case):
     k = case["kind"]
     if k == "negative":
         run_negative(res)
+        run_render_args(res)
     elif k == "probe":
         for n, dm, bm, am in case["items"]:
             chain = probe_chain(n, dm, bm, am)
